@@ -18,7 +18,12 @@ Reads(s, ev) ==
 Init == tid \in 1..Len(Traces) /\ l = 1 /\ st = St(<<>>) /\ frozen = <<>>
 Step == /\ l >= 1 /\ l <= Len(Traces[tid].ev)
         /\ LET ev == Traces[tid].ev[l]
-               cand == Outcomes([st EXCEPT !.term = FALSE], ev.op)
+               (* a sort whose comparisons raise (items of types that cannot be ordered): TypeError, and the object is still *)
+               (* the same items in SOME order - the order the event reports in full - with all reads agreeing on it        *)
+               cand == IF ev.op.op = "sort_failing"
+                       THEN (IF ev.hasfull /\ Len(ev.full) = Len(st.it) /\ Elems(ev.full) = Elems(st.it)
+                             THEN {[s |-> St(ev.full), r |-> [e |-> "TypeError", v |-> <<>>]]} ELSE {})
+                       ELSE Outcomes([st EXCEPT !.term = FALSE], ev.op)
                ms == {o \in cand : o.r = ev.r /\ Reads(o.s.it, ev) /\ (ev.hastwin => Reads(frozen, ev.twin))} IN
            (* a "pure" event built a new set (or answered a predicate) from the object: its reads are those of the result, *)
            (* and the object itself is what it was                                                                        *)
